@@ -51,7 +51,11 @@ SetOp(t, rs, cs, n) == [a |-> "set", t |-> t, u |-> 0, sels |-> <<rs>>, cs |-> c
 ExhSet == {[tabs |-> <<TabOf(Sp4, 3, 0)>>,
             ops |-> SetToSeq({SetOp(1, rs, ListSel(l), IF rs.k = "int" THEN 1 ELSE Len(RowIdx(rs, 3))) : l \in {q \in NameLists(Range(SNames(Sp4))) : Len(q) = m}})] :
               m \in 2..4, rs \in {SliceSel(None, None, 1), SliceSel(1, None, 1), IntSel(-1), IdxSel(<<2, 0>>)}}
-ExhScen == Exh1 \cup Exh2 \cup ExhSet
+\* ... and as the column part of a SELECTION (with no row part, an Ellipsis, a slice, an integer): permutations of four
+\* variables can keep the first and the last column in place while the middle ones move
+ExhGet4 == {[tabs |-> <<TabOf(Sp4, 3, 0)>>, ops |-> SetToSeq({GetOp(1, ss, ListSel(l)) : l \in NameLists(Range(SNames(Sp4)))})] :
+              ss \in {<<>>, <<EllSel>>, <<SliceSel(None, None, 1)>>, <<IntSel(-1)>>, <<SliceSel(1, None, 1)>>}}
+ExhScen == Exh1 \cup Exh2 \cup ExhSet \cup ExhGet4
 
 \* ---- histories
 R(S) == RandomElement(S)
